@@ -9,9 +9,9 @@ LEAN_MODULES = ['Glom.Props.C11']
 FACT_FILES = ['TFacts', 'ExcFacts', 'RegFacts', 'MutFacts', 'c11']
 READY = True
 MANIFEST = dict(
-    text="Lean 4 theorems about an executable model of Assign.__init__/glomit, _assign_op, _apply_for_each and the `assign` registry op on a heap with object identity: for every heap (sharing, cycles), target, wildcard-free destination of any length, value and `missing` factory the model's outcome IS the plain-Python nested assignment (same object returned; result heap equal to `pySet`; every other pre-existing cell untouched; on any failure every pre-existing cell unchanged; with `missing` exactly one factory call per absent segment, the attach is the last and only write to a pre-existing cell); put-get under the hypothesis the proof forces (counter-example kept), now covering item bindings in the scope frame; read-back in the same chain [c11_read_checks]: in `(Assign(path, …), readPath)` the later step reads exactly what the plain-Python assignment leaves, S-rooted paths from the frame the destination was bound in (also when `missing` had to create the FIRST segment, i.e. the scope variable itself); the path an Assign keeps is the path as it is read — S.a / Path(S,'a') name the scope variable a [c11_facts_s_first, c11_refines_spec: a facts obligation on mutation._s_first_item / core._s_first_magic]; wildcard destinations assign at every match in order. Facts obligation by `decide` on the branch table of _assign_op regenerated from /repo; model tied to the code by differential execution (full heap snapshot, exception class chain, factory call count, the value a later chain step reads back, the scope frame as a later chain step sees it, the caller's scope mapping unchanged).",
-    note="trusted: Lean kernel + {propext, Classical.choice, Quot.sound}; extractor (extract/facts/c11.py); harness/driver; CPython's setitem/setattr/delitem/delattr on dict/list/tuple/set/plain instances and the fault classes of harness/props/mutobjs.py as modelled in Glom/Model/C11.lean (validated by the correspondence only); default registry (C13 covers registration); `**` destinations and container *literals* as values are outside the model (arg-mode rebuilding is C08); the wildcard theorem covers destinations whose parent exists (a wildcard path that also needs `missing` is covered by the correspondence only).",
-    technique='Lean 4 refinement proof (Assign model = plain nested assignment on a heap, frame + atomicity lemmas) + facts obligation by decide + differential correspondence',
+    text="Lean 4 theorems about an executable model of Assign.__init__/glomit, arg_val/_ArgValuator.mode, _assign_op, _apply_for_each and the `assign` registry op on a heap with object identity: for every heap (sharing, cycles), target, wildcard-free destination of any length, value and `missing` factory the model's outcome IS the plain-Python nested assignment (same object returned; result heap equal to `pySet`; every other pre-existing cell untouched; on any failure — at every depth of the `missing` backfill, inside the value's evaluation — every pre-existing cell unchanged; with `missing` exactly one factory call per absent segment, the attach is the last and only write to a pre-existing cell; factories that return a non-container: nothing can be created on `0` / '' / None unless the next step is a wildcard) [c11_refines, c11_atomic, c11_frame, c11_missing]; the exact outcome at the parent for every container kind and registered handler, PathAssignError(e) exactly when the extracted except-clause names e, UnregisteredTarget for types registered False, list indices exactly [-n, n) [c11_exact_outcome, c11_list_index; the handler table is a parameter: c11_facts_wf_ureg]; LITERAL CONTAINERS in val position: arg_val touches no pre-existing cell, rebuilds ONE list/dict per distinct original (memo = partial injection, never dropped: sharing and cycles of the literal are kept), then the rebuilt value is assigned like any other [c11_argval_fresh, c11_copy_once, c11_copy_memo, c11_lit_refines, c11_lit_atomic, c11_lit_model_checks, facts obligation c11_facts_argval on _ArgValuator's source]; put-get under the hypothesis the proof forces (counter-example kept) and put-put (assign twice = last wins) [c11_put_get_partial, c11_put_put_partial]; read-back in the same chain [c11_read_checks]; the path an Assign keeps is the path as it is read [c11_facts_s_first, c11_refines_spec]; wildcard destinations assign at every match in order [c11_star, facts: one evaluation of the rest per entry]; ONE SPEC OBJECT, OVERLAPPING EVALUATIONS: the model reads nothing of its state but the heap [c11_from_any_state], a factory that re-enters glom with the same Assign object at its first call leaves this evaluation exactly what it is alone [c11_reenter_first, c11_reenter_spent; facts: no method of Assign but __init__ stores into self]. Facts obligations by `decide` on the tables regenerated from /repo; model tied to the code by differential execution (full heap snapshot compared up to the numbering of the cells created during the call, exception class chain, factory call count, the value a later chain step reads back, the scope frame as a later chain step sees it, the caller's scope mapping unchanged).",
+    note="trusted: Lean kernel + {propext, Classical.choice, Quot.sound}; extractor (extract/facts/c11.py); harness/driver; CPython's setitem/setattr/delitem/delattr on dict/list/tuple/set/plain instances and the fault classes of harness/props/mutobjs.py as modelled in Glom/Model/C11.lean (validated by the correspondence only); registry lookup = first registered class of the MRO (C13 covers the registry itself); `**` destinations outside the model; literal values: dict keys of literals are scalars, sets hold scalars; the wildcard theorem covers destinations whose parent exists; overlapping evaluations are proved transparent for re-entry at the FIRST factory call under explicit non-interference equations, re-entry at later calls and the two-thread variant are covered by the correspondence only (prescription: the two plain assignments in sequence, compared up to numbering of new cells, on records that share nothing).",
+    technique='Lean 4 refinement proof (Assign model = plain nested assignment on a heap, frame + atomicity lemmas; arg_val graph-copy invariants; state-shift lemma for re-use / re-entrancy) + facts obligations by decide + differential correspondence',
     ref='DESIGN.md §3 C11')
 RULE = ('type-directed: a nested target (dict/OrderedDict/dict subclass with __dict__/list/tuple/set/'
         'attribute objects incl. read-only-property, raising-__setattr__/__setitem__ classes; shared '
@@ -22,8 +22,13 @@ RULE = ('type-directed: a nested target (dict/OrderedDict/dict subclass with __d
         'S-rooted (first step as S[name], S.name or Path(S, name)), with 0-2 `*` wildcards; 75% of the S-rooted '
         'and 30% of the other cases run as a chain (Assign, peek, read-back of the destination or a prefix of it '
         'from the same root) so that the frame an S-rooted Assign binds in and put-get are observed; values: scalars, plain objects, T / T-paths into the target (sharing, '
-        'self-reference), failing T-paths; missing in {None, dict, list, object factory, tuple, raising '
-        'factory}; a one-edit mutation stream plants a bad segment / wrong access kind at every position. '
+        'self-reference), failing T-paths, LITERAL CONTAINERS (16%: nested exact list / dict / tuple / set / frozenset, subclass instances, objects; '
+        'the same container reachable by two routes, cycles through lists / dicts, T leaves incl. failing ones, references into the target) and objects '
+        'of the target itself as literals; 8% of the cases register 1-3 user classes on a private Glommer with explicit get / assign / delete handlers '
+        '(every handler kind, False, a raising handler); 7% evaluate ONE Assign object in two overlapping calls on two records that share nothing '
+        '(the factory re-enters glom with the same spec at its 1st/2nd/3rd call, or two threads meet inside the factory); 5% are regular nested targets '
+        'under one `*` per level, most with the SAME leaf / sub-container matched more than once; missing in {None, dict, list, object factory, tuple, raising '
+        'factory, factories returning a non-container: int, str, lambda: None}; a one-edit mutation stream plants a bad segment / wrong access kind at every position. '
         'non-trivial = path length >= 2, or an error, or a factory call, or a wildcard; distinct = '
         'distinct (heap, target, scope, root, spelling, value, missing)')
 TRUSTED = ['mutation primitives of CPython and the fault classes of harness/props/mutobjs.py as modelled in '
@@ -45,17 +50,33 @@ S_FIRST_PLAIN_P = M.S_FIRST_PLAIN_P
 # front of the first wildcard.)
 S_STAR_READBACK = True
 
-MISSING = [None] * 8 + ['dict'] * 5 + ['list', 'obj', 'obj', 'raise']
+MISSING = [None] * 8 + ['dict'] * 5 + ['list', 'obj', 'obj', 'raise', 'int', 'str', 'none', 'tuple']
 
 
-def gen_value(rng, heap, root):
+# Literal containers in `val` position (arg mode REBUILDS exact list / dict / tuple / set / frozenset
+# objects: one rebuilt list / dict per distinct original — sharing and cycles are kept —, T leaves are
+# evaluated against the target).  False: such values are not generated.
+LITERAL_CONTAINERS = True
+
+
+def gen_value(rng, heap, root, force=None):
+    force = force or {}
+    p = rng.random()
+    if LITERAL_CONTAINERS and p < force.get('tmpl_p', 0.16):
+        # a literal container written by the user: sharing, cycles, T leaves, references into the target
+        return {'lit': M.gen_template(rng, heap, root, maxdepth=rng.choice([2, 3, 3, 4]),
+                                      tleaf_p=rng.choice([0, 0.15, 0.3]))}
     p = rng.random()
     if p < 0.5:
         return {'lit': M.jval(rng.choice(M.SCALARS + [42, 'new']))}
     if p < 0.62:
-        insts = [a for a, c in enumerate(heap) if c['k'] == 'inst']
-        if insts:
-            return {'lit': {'r': rng.choice(insts)}}
+        # an object of the target itself as a literal value: plain objects and subclass instances are
+        # stored as they are, an exact list / dict / tuple / set is stored as a rebuilt copy
+        conts = [a for a, c in enumerate(heap) if c['k'] == 'inst' and c['c'] != 'TLeaf' or
+                 (LITERAL_CONTAINERS and c['c'] != 'Scope' and c['k'] != 'inst'
+                  and not (c['k'] in ('tuple', 'set') and not c['v']))]
+        if conts:
+            return {'lit': {'r': rng.choice(conts)}}
         return {'lit': {'i': 42}}
     if p < 0.72:
         return {'t': []}                              # T itself: self-reference
@@ -84,8 +105,10 @@ def gen_readback(rng, steps, style, p, sroot=False):
 
 def one_case(rng, tier, classes, cflags, force=None):
     force = force or {}
-    if rng.random() < force.get('deep_star_p', 0.04):
-        heap, root, steps = M.gen_star_case(rng, present=rng.random() < 0.8)
+    if rng.random() < force.get('deep_star_p', 0.05):
+        # (half of them with the SAME leaf / sub-container among the matches more than once)
+        heap, root, steps = M.gen_star_case(rng, present=rng.random() < 0.8,
+                                            share_p=rng.choice([0, 0.35, 0.6]))
         scope = None
         sroot = rng.random() < 0.4
         if sroot:
@@ -103,10 +126,15 @@ def one_case(rng, tier, classes, cflags, force=None):
                 'api': rng.choice(['assign', 'Assign'])}
     maxlen = 5 if tier == 'quick' else 8
     heap, root = M.gen_target(rng, rng.choice([2, 3, 4]))
-    sroot = force.get('sroot', rng.random() < 0.12)
+    if REENTRANT and rng.random() < force.get('reenter_p', 0.07):
+        return reenter_case(rng, tier, classes, cflags, heap, root, force)
+    # user registrations on a private Glommer (T-rooted, no wildcards: `*` enumerates through the
+    # registered `keys` / `get` / `iterate` handlers, which is C14's subject)
+    ureg = M.gen_ureg(rng) if USER_REGISTRATIONS and rng.random() < force.get('ureg_p', 0.08) else None
+    sroot = force.get('sroot', rng.random() < 0.12) and not ureg
     scope = None
     start = root
-    if sroot or rng.random() < 0.05:
+    if sroot or (rng.random() < 0.05 and not ureg):
         scope = M.make_scope(rng, heap, root)
     missing = force.get('missing', rng.choice(MISSING))
     mode = rng.random()
@@ -120,7 +148,7 @@ def one_case(rng, tier, classes, cflags, force=None):
     # (an S-rooted destination whose absent tail starts with `*` would enumerate — and write into —
     # glom's own scope maps, including the process-global default scope: never generated)
     steps = M.gen_dest(rng, heap, start, maxlen, want_present=rng.random() < 0.5, absent_tail=absent,
-                       star_p=0 if (sroot and missing) else force.get('star_p', 0.3 if sroot else 0.15),
+                       star_p=0 if ((sroot and missing) or ureg) else force.get('star_p', 0.3 if sroot else 0.15),
                        first_absent_p=0.4 if sroot else 0.15)
     if sroot and steps and steps[0][0] != 'key':
         steps[0] = ('key', {'s': 'd'})
@@ -134,10 +162,52 @@ def one_case(rng, tier, classes, cflags, force=None):
         cflags = [f for f in cflags if f[0] != 'Scope']
     return {'classes': classes, 'cflags': cflags, 'heap': heap, 'target': root, 'scope': scope,
             'root': 'S' if sroot else 'T', 'spelling': sp, 'style': style,
-            'value': gen_value(rng, heap, root), 'missing': missing,
+            'value': gen_value(rng, heap, root, force), 'missing': missing,
             'readback': gen_readback(rng, steps, style, force.get('chain_p', 0.75 if sroot else 0.3), sroot),
-            'warmup': rng.choice([1, 2, 2]) if rng.random() < force.get('warm_p', 0.15) else 0,
-            'api': rng.choice(['assign', 'Assign'])}
+            'warmup': rng.choice([1, 2, 2]) if rng.random() < force.get('warm_p', 0.15) and not ureg else 0,
+            'api': rng.choice(['assign', 'Assign']), 'ureg': M.ureg_tables(ureg) if ureg else None,
+            'ureg_src': ureg}
+
+
+# User types: classes registered on a private Glommer with explicit get / assign / delete handlers
+# (every handler kind, False, a raising handler of the user's own).  False: not generated.
+USER_REGISTRATIONS = True
+
+# One Assign object evaluated by two OVERLAPPING calls: the `missing` factory of the call on `target`
+# re-enters glom with the same spec object on a second record (`target2`: a copy of the target's cells
+# with other leaves, sharing nothing with it) at its `at`-th call — or two threads evaluate the spec on
+# the two records and meet inside the factory.  Each call must assign ITS OWN value (a spec object is
+# an immutable term: nothing of one evaluation may leak into another).  False: not generated.
+REENTRANT = True
+
+
+def reenter_case(rng, tier, classes, cflags, heap, root, force):
+    maxlen = 5 if tier == 'quick' else 8
+    kind = rng.choice(['dict'] * 5 + ['list', 'obj', 'obj', 'raise'])
+    absent = rng.choice([1, 1, 2, 2, 3])
+    steps = M.gen_dest(rng, heap, root, maxlen, want_present=False, absent_tail=absent, star_p=0,
+                       first_absent_p=0.2)
+    if rng.random() < 0.1:
+        steps = M.mutate_dest(rng, steps)
+    style = M.choose_style(rng, steps, False)
+    sp = M.spell(rng, steps, style)
+    # the value: mostly one that differs between the two records (a T path / a literal with T leaves)
+    p = rng.random()
+    if p < 0.6:
+        walk, _ = M.valid_walk(rng, heap, root, rng.randint(0, 3), prefer_deep=False)
+        value = {'t': [['.' if k == 'attr' else '[', key] for k, key in walk]}
+        target2 = M.append_copy(heap, root)
+    elif p < 0.85 and LITERAL_CONTAINERS:
+        value = {'lit': M.gen_template(rng, heap, root, maxdepth=2, tleaf_p=0.4, want_shared=False)}
+        target2 = M.append_copy(heap, root)
+    else:
+        value = {'lit': M.jval(rng.choice([42, 'new', None]))}
+        target2 = M.append_copy(heap, root)
+    return {'classes': classes, 'cflags': [f for f in cflags if f[0] != 'Scope'], 'heap': heap, 'target': root,
+            'scope': None, 'root': 'T', 'spelling': sp, 'style': style, 'value': value, 'missing': kind,
+            'readback': None, 'warmup': 0, 'api': 'Assign',
+            'reenter': {'at': rng.choice([0, 0, 0, 1, 1, 2]), 'target2': target2,
+                        'threads': rng.random() < force.get('threads_p', 0.25)}}
 
 
 def generate(rng, tier, scale, **focus):
@@ -181,16 +251,66 @@ def corpus():
 
 
 class Factory:
+    """the `missing` callable.  `reenter` (set after the spec is built): at its `at`-th call it first
+    evaluates the SAME spec object on another record — directly (a factory that initialises a
+    neighbouring record with the module-level spec), or, `threads`, by waiting until a second thread
+    that evaluates the spec on the other record has arrived at the same point"""
     def __init__(self, kind):
         self.kind, self.made, self.calls = kind, [], 0
+        self.reenter = None         # (at, callable running the other evaluation) | None
+        self.nested = False
+        self.barrier = None         # (at, threading.Barrier) | None
+        self.local = None
 
     def __call__(self):
         self.calls += 1
+        if self.reenter is not None and not self.nested and self.calls - 1 == self.reenter[0]:
+            self.nested = True
+            try:
+                self.reenter[1]()
+            except Exception:
+                pass
+        if self.barrier is not None:
+            n = getattr(self.local, 'n', 0)
+            self.local.n = n + 1
+            if n == self.barrier[0]:
+                try:
+                    self.barrier[1].wait()
+                except Exception:       # the other evaluation never arrived here: go on alone
+                    pass
         if self.kind == 'raise':
             raise RuntimeError('factory')
-        o = {'dict': dict, 'list': list, 'obj': M.Obj, 'tuple': tuple}[self.kind]()
-        self.made.append(o)
+        o = {'dict': dict, 'list': list, 'obj': M.Obj, 'tuple': tuple, 'int': int, 'str': str,
+             'none': lambda: None}[self.kind]()
+        if self.kind not in ('int', 'str', 'none'):     # (a factory that returns a non-container creates nothing)
+            self.made.append(o)
         return o
+
+
+def run_overlapping(glom, spec, fac, target, target2, ree):
+    """two overlapping evaluations of ONE spec object; returns / raises what the evaluation on `target` does"""
+    if not ree.get('threads'):
+        fac.reenter = (ree['at'], lambda: glom.glom(target2, spec))
+        return glom.glom(target, spec)
+    import threading
+    fac.local = threading.local()
+    fac.barrier = (ree['at'], threading.Barrier(2, timeout=1.0))
+    box = {}
+
+    def work(name, t):
+        try:
+            box[name] = ('ok', glom.glom(t, spec))
+        except Exception as e:
+            box[name] = ('err', e)
+    th = [threading.Thread(target=work, args=('b', target2)), threading.Thread(target=work, args=('a', target))]
+    for t in th:
+        t.start()
+    for t in th:
+        t.join()
+    kind, x = box['a']
+    if kind == 'err':
+        raise x
+    return x
 
 
 def run_impl(case):
@@ -209,13 +329,11 @@ def run_impl(case):
         kwargs['scope'] = caller
     v = case['value']
     if 'lit' in v:
-        val = dv(v['lit'])
+        val = dv(v['lit'])          # a scalar, an object, a literal container (T leaves included), a T-expression
     else:
-        from glom import T
-        val = T
-        for op, arg in v['t']:
-            val = getattr(val, dv(arg)) if op == '.' else val[dv(arg)]
+        val = M.build_t(v['t'], dv)
     fac = Factory(case['missing']) if case.get('missing') else None
+    ree = case.get('reenter')
     out = dict(case)
     default_map = glom.core._DEFAULT_SCOPE.maps[0]
     default_keys = set(default_map)
@@ -226,22 +344,25 @@ def run_impl(case):
         peek = M.Peek(own=(caller or {}))
     read = None
     read_val = None
+    G = M.Runner(case.get('ureg_src'))
     try:
         path = M.build_path(case, dv)
-        if case.get('api') == 'assign' and not kwargs and not case.get('warmup') and not rb:
+        if case.get('api') == 'assign' and not kwargs and not case.get('warmup') and not rb and not G.ureg:
             res = glom.assign(target, path, val, missing=fac)
         else:
             spec = Assign(path, val, missing=fac)
             M.warm_up(case, spec, fac)       # the same spec object, used on other targets before
-            if rb:
+            if ree:
+                res = run_overlapping(glom, spec, fac, target, dv(ree['target2']), ree)
+            elif rb:
                 rpath = M.build_path({'spelling': rb['spelling'], 'root': case.get('root'),
                                       'style': case.get('style')}, dv)
                 if isinstance(rpath, str):
                     rpath = Path.from_text(rpath)
-                read_val = glom.glom(target, (spec, peek, rpath), **kwargs)
+                read_val = G.glom(target, (spec, peek, rpath), **kwargs)
                 res = peek.got
             else:
-                res = glom.glom(target, spec, **kwargs)
+                res = G.glom(target, spec, **kwargs)
     except Exception as e:
         if peek is not None and peek.seen:
             # the Assign returned; the read-back step raised
@@ -285,7 +406,7 @@ def run_impl(case):
 
 def key(case):
     return {k: case.get(k) for k in ('heap', 'target', 'scope', 'root', 'spelling', 'style', 'value', 'missing',
-                                     'warmup', 'readback')}
+                                     'warmup', 'readback', 'reenter', 'ureg_src')}
 
 
 def nontrivial(case, verdict):
@@ -306,6 +427,25 @@ def shrink(case):
     if case.get('warmup'):
         c = dict(base); c['warmup'] = case['warmup'] - 1
         yield c
+    ree = case.get('reenter')
+    if ree:
+        c = dict(base); c['reenter'] = None
+        yield c
+        if ree.get('threads'):
+            c = dict(base); c['reenter'] = dict(ree, threads=False)
+            yield c
+        if ree.get('at'):
+            c = dict(base); c['reenter'] = dict(ree, at=ree['at'] - 1)
+            yield c
+    ur = case.get('ureg_src')
+    if ur:
+        for i in range(len(ur)):
+            u2 = ur[:i] + ur[i + 1:]
+            c = dict(base); c['ureg_src'] = u2 or None; c['ureg'] = M.ureg_tables(u2) if u2 else None
+            yield c
+    if 'lit' in case['value'] and isinstance(case['value']['lit'], dict) and 'r' in case['value']['lit']:
+        c = dict(base); c['value'] = {'lit': {'i': 42}}
+        yield c
     rb = case.get('readback')
     if rb:
         c = dict(base); c['readback'] = None
@@ -325,6 +465,8 @@ def focus(disagreements, facts_changed):
         f['star_p'] = 0.4
         f['deep_star_p'] = 0.3
         f['warm_p'] = 0.5
+        f['tmpl_p'] = 0.4
+        f['reenter_p'] = 0.25
         f['missing'] = 'dict'
     if any(c.get('root') == 'S' for c, _ in disagreements):
         f['sroot'] = True
@@ -335,4 +477,8 @@ def focus(disagreements, facts_changed):
     if any('x' in json.dumps(c['spelling']) for c, _ in disagreements):
         f['star_p'] = 0.6
         f['deep_star_p'] = 0.3
+    if any(c.get('reenter') for c, _ in disagreements):
+        f['reenter_p'] = 0.5
+    if any(isinstance(c['value'].get('lit'), dict) and 'r' in c['value']['lit'] for c, _ in disagreements):
+        f['tmpl_p'] = 0.5
     return f
